@@ -376,31 +376,21 @@ func newMatcher(unknown string, threshold float64) *matcher {
 // the unknown text. The resulting matches can then filtered to determine which
 // are the best matches.
 func (m *matcher) findMatches(known *knownValue) {
-	var mrs []searchset.MatchRanges
 	if all := known.findAll(m.normUnknown); all != nil {
-		// We found exact matches. Just use those!
+		// We found exact matches. Just use those! The occurrence itself is the
+		// matched range; mapping it to token positions and back is not needed
+		// (and went wrong for values of a single token and for occurrences
+		// that do not start at a token boundary).
 		for _, a := range all {
-			var start, end int
-			for i, tok := range m.unknown.Tokens {
-				if tok.Offset == a[0] {
-					start = i
-				} else if tok.Offset >= a[len(a)-1]-len(tok.Text) {
-					end = i
-					break
-				}
-			}
-
-			mrs = append(mrs, searchset.MatchRanges{{
-				SrcStart:    0,
-				SrcEnd:      len(known.set.Tokens),
-				TargetStart: start,
-				TargetEnd:   end + 1,
-			}})
+			m.mu.Lock()
+			m.queue.Push(&Match{Name: known.key, Confidence: 1.0, Offset: a[0], Extent: a[1] - a[0]})
+			m.mu.Unlock()
 		}
-	} else {
-		// No exact match. Perform a more thorough match.
-		mrs = searchset.FindPotentialMatches(known.set, m.unknown)
+		return
 	}
+
+	// No exact match. Perform a more thorough match.
+	mrs := searchset.FindPotentialMatches(known.set, m.unknown)
 
 	var wg sync.WaitGroup
 	for _, mr := range mrs {
